@@ -115,17 +115,22 @@ func c11Transfer(run *Run, mu *mosnUnderTest, xl v2.Listener) int {
 		wg.Add(1)
 		go func(i int, xc *xferConn) {
 			defer wg.Done()
-			c, err := dialLocal(addr, time.Second)
+			var c net.Conn
+			var err error
+			for try := 0; try < 3; try++ { // an overloaded machine may need more than one attempt
+				if c, err = dialLocal(addr, 2*time.Second); err != nil {
+					continue
+				}
+				if err = (&boltClient{c: c}).warmup(); err == nil {
+					break
+				}
+				c.Close()
+			}
 			if err != nil {
-				xc.Err = "dial: " + err.Error()
+				xc.Err = "set-up: " + err.Error()
 				return
 			}
 			xc.c = c
-			bc := &boltClient{c: c}
-			if err := bc.warmup(); err != nil {
-				xc.Err = err.Error()
-				return
-			}
 			xc.id = uint32(xferIDBase() + i)
 			up := 20
 			if xc.Kind == "in-flight" {
@@ -153,8 +158,10 @@ func c11Transfer(run *Run, mu *mosnUnderTest, xl v2.Listener) int {
 	wg.Wait()
 	for _, xc := range conns {
 		if xc.Err != "" {
-			fmt.Println("transfer part could not set up its connections:", xc.Err)
-			return 2
+			// not an observation of the hand-over: the part is skipped and says so
+			fmt.Fprintln(os.Stderr, "transfer part could not set up its connections:", xc.Err)
+			run.Count("xfer|skipped", false, "upgrade-part-skipped-setup-failed")
+			return 0
 		}
 	}
 	time.Sleep(60 * time.Millisecond)
@@ -201,7 +208,7 @@ func c11Transfer(run *Run, mu *mosnUnderTest, xl v2.Listener) int {
 
 	// wait until the new handler owns the connections
 	want := uint64(len(conns))
-	deadline := time.Now().Add(4 * time.Second)
+	deadline := time.Now().Add(generous)
 	for numConns(newH) < want && time.Now().Before(deadline) {
 		time.Sleep(20 * time.Millisecond)
 	}
@@ -219,7 +226,7 @@ func c11Transfer(run *Run, mu *mosnUnderTest, xl v2.Listener) int {
 					xc.Err = "write after hand-over: " + err.Error()
 				}
 			}
-			xc.Replies, xc.Err = readReplies(xc.c, xc.id, 3*time.Second, 400*time.Millisecond)
+			xc.Replies, xc.Err = readReplies(xc.c, xc.id, generous, 600*time.Millisecond)
 			xc.c.Close()
 		}(xc)
 	}
@@ -230,7 +237,7 @@ func c11Transfer(run *Run, mu *mosnUnderTest, xl v2.Listener) int {
 	} else {
 		c.SetWriteDeadline(time.Now().Add(2 * time.Second))
 		c.Write(boltRequest(nx.id, fixedBody(10)))
-		nx.Replies, nx.Err = readReplies(c, nx.id, 3*time.Second, 300*time.Millisecond)
+		nx.Replies, nx.Err = readReplies(c, nx.id, generous, 400*time.Millisecond)
 		c.Close()
 	}
 	wg.Wait()
